@@ -14,10 +14,11 @@ CHECKS["C01"] = dict(
 CHECKS["C03"] = dict(
     level="fault_enumeration",
     technique="crash-point enumeration at the Backend/LockBackend boundary (calls park forever; tile-batch subsets) incl. crashes inside recovery, judged by restart + byte-exact storage audit at the lock checkpoint + further round; online staging-discard monitor",
-    text="For each tile-boundary (start size, pool size) the op sequence of the round is learnt from a recorded run and every crash point is enumerated (each sequential op applied/not; every subset of the parallel tile batch when it has <=6 uploads, else seeded subsets incl. all single-missing/single-present), each followed by recoveries that are themselves crashed inside their re-upload batch; after the final clean restart LoadLog must succeed, every tile of the lock-committed tree must exist with exactly the prescribed bytes, a further round must commit and publish, and every earlier acknowledgement must still hold. A second workload kills the instance right after acknowledgements. Online: a staging bundle may only be discarded once the published checkpoint covers it.",
+    text="For each tile-boundary (start size, pool size) the op sequence of the round is learnt from a recorded run and every crash point is enumerated (each sequential op applied/not; every subset of the parallel tile batch when it has <=6 uploads, else seeded subsets incl. all single-missing/single-present), each followed by recoveries that are themselves crashed inside their re-upload batch; after the final clean restart LoadLog must succeed, every tile of the lock-committed tree must exist with exactly the prescribed bytes, a further round must commit and publish, and every earlier acknowledgement must still hold. A second workload kills the instance right after acknowledgements. Online: a staging bundle may only be discarded once the published checkpoint covers it. System level: the built cmd/sunlight binary on LocalBackend + SQLite lock + SQLite cache under HTTP load is killed with SIGKILL by timer or on the N-th fsync/rename/write/unlink/... (strace signal injection, i.e. at system-call granularity, also during the recovery start), then restarted: start-up must succeed, the lock-committed tree must be completely in storage after an idle restart, every 200-acknowledged entry must be at its index, sequencing must continue and every checkpoint ever observed must be a prefix of the final tree.",
     note="Crash model: the process stops at a storage/lock call boundary, the in-flight call applied or not (as the property states); nothing of the dead instance runs afterwards. Trusted: harness stores, reference renderer of the Static CT layout.",
     design_ref="DESIGN.md section 3, C03",
-    parts=[P("crashenum", "^TestC03CrashEnum$", shards=(16, 16)), P("ackcrash", "^TestC03AckThenCrash$", shards=(4, 16))],
+    parts=[P("crashenum", "^TestC03CrashEnum$", shards=(16, 16)), P("ackcrash", "^TestC03AckThenCrash$", shards=(4, 16)),
+           P("syscrash", "^TestSysCrash$", shards=(4, 12), bins=("sunlight",), env={"VERIF_SYS_PROPERTY": "C03"})],
     floor=500,
 )
 
@@ -36,11 +37,12 @@ CHECKS["C04"] = dict(
 CHECKS["C02"] = dict(
     level="exploration",
     technique="acknowledgement ledger: every wait-function return is stamped with the store's logical sequence number and judged offline against the object-store versions readable at that instant, the committed tree and the final stored leaves; fault placements of the serving round enumerated; race detector on the free-running workload",
-    text="Waiters block concurrently in their wait functions while the round runs with the checkpoint upload delayed inside the backend call; each acknowledgement is stamped with the world sequence number at return and then checked: a verified checkpoint readable at that instant covers the index, the data tile readable at that instant holds exactly the submitted entry with that timestamp, and the same holds in the lock-committed tree and in the final stored tree after fault placements (every op x applied/not), crashes at every op of the following round, and restart. A free-running RunSequencer with 8-24 concurrent submitters (new + duplicate entries; pool, in-sequencing and cache paths) is judged the same way, also under -race. The HTTP/SCT clause is exercised by the C09 workload (SCT verified independently).",
+    text="Waiters block concurrently in their wait functions while the round runs with the checkpoint upload delayed inside the backend call; each acknowledgement is stamped with the world sequence number at return and then checked: a verified checkpoint readable at that instant covers the index, the data tile readable at that instant holds exactly the submitted entry with that timestamp, and the same holds in the lock-committed tree and in the final stored tree after fault placements (every op x applied/not), crashes at every op of the following round, and restart. A free-running RunSequencer with 8-24 concurrent submitters (new + duplicate entries; pool, in-sequencing and cache paths) is judged the same way, also under -race. The HTTP/SCT clause is exercised by the C09 workload and by a system-level workload: the built cmd/sunlight binary under 12 concurrent HTTP submitters, each 200 answer judged against the checkpoint file readable at that moment and the SCT verified over the independently derived leaf.",
     note="Trusted: harness stores and their sequence numbers (ack instant is read under the store mutex), reference decoder, ct-go signature verifier. Crash after acknowledgement is modelled at storage-call boundaries.",
     design_ref="DESIGN.md section 3, C02",
     parts=[P("phases", "^TestC02Phases$", shards=(8, 16)), P("stress", "^TestC02Stress$", shards=(2, 4)),
-           P("stress-race", "^TestC02Stress$", race=True, shards=(1, 4))],
+           P("stress-race", "^TestC02Stress$", race=True, shards=(1, 4)),
+           P("sysacks", "^TestSysAcks$", shards=(2, 6), bins=("sunlight",), env={"VERIF_SYS_PROPERTY": "C02"})],
     floor=200,
 )
 
@@ -57,11 +59,12 @@ CHECKS["C08"] = dict(
 CHECKS["C06"] = dict(
     level="exploration",
     technique="controlled schedules: every backend call of 2-3 real Log instances passes a central gate; interleavings enumerated for small rounds and seeded for larger ones; lock-history, acknowledgement and storage monitors; generated start-up state matrix with byte-identical-stores check",
-    text="Two or three instances loaded from the same lock checkpoint (private caches, shared object store) run one round each while a scheduler releases one backend call at a time: all interleavings for pool sizes (0,0), (0,1) and all merges of the first 4-5 calls for (1,1), seeded schedules for larger/multi-tile pools and three instances. Oracle: at most one lock commit per starting checkpoint, each non-committing instance returns the fatal sequencing error and acknowledges nothing, stays unable to commit afterwards, the winner continues, the lock-committed tree is fully and exactly rendered in storage, append-only monitors hold. Start-up matrix: 15 generated states x 5 sizes must be refused by LoadLog/CreateLog with both stores unchanged; two concurrent CreateLogs under all 70 interleavings of their first four calls: exactly one succeeds. Misconfigured object storage: a second instance with the same key and lock store but ANOTHER bucket (exact copy, copy taken between lock commit and publication, copy 1-3 rounds behind, copy without checkpoint / tiles, empty): refused LoadLog/CreateLog leave lock store and first bucket untouched; when both load they race one round under seeded gate schedules: one commit, loser fatal and silent, whatever either publishes was lock-committed first, the winner's bucket is complete, a restarted loser never loads a bucket that lacks the committed tree.",
+    text="Two or three instances loaded from the same lock checkpoint (private caches, shared object store) run one round each while a scheduler releases one backend call at a time: all interleavings for pool sizes (0,0), (0,1) and all merges of the first 4-5 calls for (1,1), seeded schedules for larger/multi-tile pools and three instances. Oracle: at most one lock commit per starting checkpoint, each non-committing instance returns the fatal sequencing error and acknowledges nothing, stays unable to commit afterwards, the winner continues, the lock-committed tree is fully and exactly rendered in storage, append-only monitors hold. Start-up matrix: 15 generated states x 5 sizes must be refused by LoadLog/CreateLog with both stores unchanged; two concurrent CreateLogs under all 70 interleavings of their first four calls: exactly one succeeds. Misconfigured object storage: a second instance with the same key and lock store but ANOTHER bucket (exact copy, copy taken between lock commit and publication, copy 1-3 rounds behind, copy without checkpoint / tiles, empty): refused LoadLog/CreateLog leave lock store and first bucket untouched; when both load they race one round under seeded gate schedules: one commit, loser fatal and silent, whatever either publishes was lock-committed first, the winner's bucket is complete, a restarted loser never loads a bucket that lacks the committed tree. System level: two real cmd/sunlight processes with the same key on one SQLite lock database and one LocalBackend directory under HTTP load: never two processes that both keep acknowledging, a stopped one exits with an error, every acknowledgement of either is at its index in the final tree, every observed checkpoint is a prefix of it.",
     note="Interleavings are controlled at Backend/LockBackend call granularity (as the property states). The second bucket is a key namespace of the same in-memory store. Trusted: harness CAS store, gate scheduler, reference renderer.",
     design_ref="DESIGN.md section 3, C06",
     parts=[P("schedules", "^TestC06Schedules$", shards=(8, 16)), P("startup", "^TestC06Startup$", shards=(2, 4)),
-           P("secondbucket", "^TestC06SecondBucket$", shards=(4, 16))],
+           P("secondbucket", "^TestC06SecondBucket$", shards=(4, 16)),
+           P("processes", "^TestSysTwoProcesses$", shards=(3, 8), bins=("sunlight",), env={"VERIF_SYS_PROPERTY": "C06"})],
     floor=150,
 )
 
